@@ -228,6 +228,22 @@ Section Merged.
       split; [eexists; split; [reflexivity|split; auto]|]. reflexivity.
   Qed.
 
+  (* __getitem__ on a merged store opened together with associated merged stores: the base payload is the
+     i-th of the base concatenation; the associated records are whatever [col_values] finds (each through its
+     own store's table: col_values_concat below) *)
+  Theorem geta_merged h i ps : mh_ok h -> exists c,
+    step fixed_cfg (mkW fs (Some h)) (GetA i ps) =
+    (mkW fs (Some (set_cache h c)),
+     match nth_error items i with
+     | Some x => match col_values fs ps i with Some vs => OItemA (tag x) vs | None => OErr EIndex end
+     | None => OErr EIndex
+     end) /\ mh_ok (set_cache h c).
+  Proof.
+    intros (M & Hix). destruct (mget h i M) as (c & G1 & G2 & G3).
+    exists c. cbn [step w_h w_fs]. destruct (get_item fs h i) as [h1 rr]. cbn in G1, G3. subst h1 rr.
+    split; [|split; auto]. destruct (nth_error items i); reflexivity.
+  Qed.
+
   Fixpoint reads_ok (ops : list op) : Prop :=
     match ops with
     | [] => True
@@ -246,6 +262,31 @@ Section Merged.
     cbn [fst snd map] in *. now f_equal.
   Qed.
 End Merged.
+
+(* ------------------------------------------------------------------------------------------- *)
+(* associated merged stores: for EVERY split of every store, the record found for index i is the  *)
+(* i-th record of that store's own concatenation                                               *)
+(* ------------------------------------------------------------------------------------------- *)
+Lemma col_value_concat fs p l i : merged_parts fs p = Some l ->
+  col_value fs p i = option_map tag (nth_error (concat (map f_items l)) i).
+Proof.
+  intros H. unfold col_value. rewrite H.
+  replace (map (fun f => length (f_items f)) l) with (map (@length item) (map f_items l)) by (now rewrite map_map).
+  now rewrite locate_concat.
+Qed.
+
+Fixpoint sequence {A} (l : list (option A)) : option (list A) :=
+  match l with
+  | [] => Some []
+  | x :: r => match x, sequence r with Some v, Some vs => Some (v :: vs) | _, _ => None end
+  end.
+
+Theorem col_values_concat fs ps ls i : Forall2 (fun p l => merged_parts fs p = Some l) ps ls ->
+  col_values fs ps i = sequence (map (fun l => option_map tag (nth_error (concat (map f_items l)) i)) ls).
+Proof.
+  induction 1 as [|p l ps ls H _ IH]; cbn; auto.
+  now rewrite (col_value_concat fs p l i H), IH.
+Qed.
 
 (* ------------------------------------------------------------------------------------------- *)
 (* C09: merge, then open: the concatenation of the inputs in the order given                    *)
